@@ -42,6 +42,10 @@ func runC19(c *Ctx) {
 	ruleAtomic(c, "ATOMIC", nil)
 	ruleLoopVar(c, "LOOPVAR")
 	ruleLookupAcquire(c, "ATOMIC")
+	ruleNoLockCopy(c, "GUARDED")
+	for _, m := range findMultiListeners(c, "GUARDED") {
+		rulePumpBuffer(c, m, "GUARDED")
+	}
 	// "results equal to some sequential order": a clock value read before the collector lock is taken can be older than a
 	// start time a concurrent scrape installs, which no sequential order produces
 	if m := findTT(c, "CLOCK"); m != nil {
